@@ -140,9 +140,15 @@ def run_array(check, net, host, field, exprs, expected, meta):
 	for size in range(1, max_size + 1):
 		for _ in range(3 if check.tier == 'quick' else 12):
 			subsets.append([rng.choice(variants) for _ in range(size)])      # with replacement: equal keys occur
-	# equal keys systematically (first, in the middle, last), whatever the random subsets hold
+	# equal keys systematically (first, in the middle, last), whatever the random subsets hold: the same entry twice, and two entries
+	# that share the key but differ in their other members
 	for variant in variants[:6]:
 		subsets.append([variant, variant])
+		other = generator.struct(net.by_name[array_type.element_type], 1)
+		twin = ('S', variant[1], [(name, value if name == array_type.sort_key else dict(other[2]).get(name, value)) for name, value in variant[2]])
+		if twin != variant:
+			subsets.append([variant, twin])
+			subsets.append([twin, variant])
 	subsets.append([variants[0], variants[0], variants[-1]])
 	subsets.append([variants[0], variants[-1], variants[-1]])
 	for entries in subsets:
